@@ -146,6 +146,22 @@ def capture_by_name(ctx, rid, core):
 
 
 
+def parameters_last(ctx, rid, core):
+    """in the call frame the parameters are inserted after the function's own name and `inputs`, so a parameter of the same name wins (shared with C03: parameters shadow outer names inside the call)"""
+    hfc = core.hir_fn(FCALL)
+    inserts = [n for n in H.walk(hfc["body"]) if H.kind(n) == "MethodCall" and n["name"] == "insert" and "HashMap" in n.get("recv_ty", "")]
+    loops = [n for n in H.walk(hfc["body"]) if H.kind(n) == "For"]
+    param_loop = [lp for lp in loops if any(H.kind(x) == "Match" and x["scrut"].get("ty", "").endswith("values::LambdaArg") for x in H.walk(lp["body"]))]
+    if len(param_loop) == 1:
+        lp = param_loop[0]
+        inside = [n for n in inserts if any(x is n for x in H.walk(lp["body"]))]
+        outside = [n for n in inserts if n not in inside]
+        ok = bool(inside) and all(o["sp"][3] < lp["sp"][3] for o in outside)
+        ctx.inst(rid, "locals#parameters-last", ok, "%d non-parameter inserts (self name, inputs), all before the parameter loop: %s" % (len(outside), ok), H.loc(lp))
+    else:
+        ctx.inst(rid, "locals#parameters-last", None, "parameter-binding loop not identified", H.loc(hfc["body"]))
+
+
 class _Only:
     """a view of ctx that records only the instances whose key matches"""
 
@@ -326,18 +342,7 @@ def run(ctx):
                         a0, a1 = fc.trace(t2["args"][0]), fc.trace(t2["args"][1])
                         oks = all(y[0] == "param" for y in a0) and all(y[0] in ("call", "param") and ("scope" in (y[2] if y[0] == "param" else y[3]) or (y[0] == "call" and y[1].endswith("CapturedScope::as_rc"))) for y in a1)
                         ctx.inst("C04.R2", "body-env#captured-scope", oks, "extend_shared(%s, %s)" % ([y[:2] for y in a0], [y[:2] for y in a1]), fc.loc(x[2]))
-    hfc = core.hir_fn(FCALL)
-    inserts = [n for n in H.walk(hfc["body"]) if H.kind(n) == "MethodCall" and n["name"] == "insert" and "HashMap" in n.get("recv_ty", "")]
-    loops = [n for n in H.walk(hfc["body"]) if H.kind(n) == "For"]
-    param_loop = [lp for lp in loops if any(H.kind(x) == "Match" and x["scrut"].get("ty", "").endswith("values::LambdaArg") for x in H.walk(lp["body"]))]
-    if len(param_loop) == 1:
-        lp = param_loop[0]
-        inside = [n for n in inserts if any(x is n for x in H.walk(lp["body"]))]
-        outside = [n for n in inserts if n not in inside]
-        ok = bool(inside) and all(o["sp"][3] < lp["sp"][3] for o in outside)
-        ctx.inst("C04.R2", "locals#parameters-last", ok, "%d non-parameter inserts (self name, inputs), all before the parameter loop: %s" % (len(outside), ok), H.loc(lp))
-    else:
-        ctx.inst("C04.R2", "locals#parameters-last", None, "parameter-binding loop not identified", H.loc(hfc["body"]))
+    parameters_last(ctx, "C04.R2", core)
     # capture at creation
     m0 = H.main_match(hev["body"], "ast::Expr")
     lam = None
@@ -440,6 +445,8 @@ def run(ctx):
              ("if", ("bin", "Eq", REQ, ("call", "len", ARGSF)), ("ctor", "Exact", REQ), ("ctor", "Between", REQ, ("call", "len", ARGSF))))
     ctx.inst("C04.R3", "get_arity", S.verdict(t, wantg), "classification: %s" % S.show(t)[:300], H.loc(hga["body"]))
     # positional binding
+    hfc = core.hir_fn(FCALL)
+    param_loop = [lp for lp in [n for n in H.walk(hfc["body"]) if H.kind(n) == "For"] if any(H.kind(x) == "Match" and x["scrut"].get("ty", "").endswith("values::LambdaArg") for x in H.walk(lp["body"]))]
     if len(param_loop) == 1:
         lp = param_loop[0]
         binds = H.pat_binds(lp["pat"])
